@@ -406,6 +406,44 @@ func loopTripBound(l *core.Loop) ssa.Value {
 	return nil
 }
 
+// loopSkipsNone: the counting loop `for i := s; i < n; i++` (or `i <= n`) runs
+// n times: it starts at 0 (1 for <=) and steps by one. Loops of another shape
+// (no induction phi in the comparison) are not judged (true).
+func loopSkipsNone(l *core.Loop) (bool, string) {
+	ifi, ok := l.Header.Instrs[len(l.Header.Instrs)-1].(*ssa.If)
+	if !ok {
+		return true, ""
+	}
+	bo, ok := ifi.Cond.(*ssa.BinOp)
+	if !ok || (bo.Op != token.LSS && bo.Op != token.LEQ) {
+		return true, ""
+	}
+	ph, ok := bo.X.(*ssa.Phi)
+	if !ok || ph.Block() != l.Header {
+		return true, ""
+	}
+	want := int64(0)
+	if bo.Op == token.LEQ {
+		want = 1
+	}
+	for i, e := range ph.Edges {
+		if !l.Blocks[ph.Block().Preds[i]] {
+			if k, isK := core.ConstInt(e); !isK || k != want {
+				return false, fmt.Sprintf("the counter starts at %s, not %d", desc(e), want)
+			}
+			continue
+		}
+		add, isAdd := e.(*ssa.BinOp)
+		if !isAdd || add.Op != token.ADD || add.X != ssa.Value(ph) {
+			return false, "the counter is not advanced by one per iteration"
+		}
+		if k, isK := core.ConstInt(add.Y); !isK || k != 1 {
+			return false, "the counter is not advanced by one per iteration"
+		}
+	}
+	return true, ""
+}
+
 // resultThrough: v is the result of a call to one of keys, directly or as the
 // value a helper of the analysed packages returns unchanged (the call moved
 // into an extracted helper).
